@@ -84,6 +84,7 @@ type state struct {
 	ops      map[string]int64
 	fired    map[string]int64
 	onOp     func(proc int, op, class, path string)
+	onFileOp func(file *File, op string)
 	onLock   func(ev LockEvent)
 }
 
@@ -111,6 +112,36 @@ func SetTorn(on bool)                               { st.torn = on }
 func SetReadChunk(n int)                            { st.chunk = n }
 func SetClassifier(f func(string) string)           { st.classify = f }
 func OnOp(f func(proc int, op, class, path string)) { st.onOp = f }
+
+// OnFileOp registers a callback invoked at every content operation on an open
+// file (read, write, writeat, truncate), after the yield and before the effect.
+func OnFileOp(f func(file *File, op string)) { st.onFileOp = f }
+
+// OpenCountTask returns the number of open descriptors that a task opened.
+func OpenCountTask(task int) int {
+	st.mu.Lock()
+	defer st.mu.Unlock()
+	n := 0
+	for f := range st.files {
+		if f.task == task {
+			n++
+		}
+	}
+	return n
+}
+
+// OpenCount returns the number of descriptors a simulated process holds open.
+func OpenCount(proc int) int {
+	st.mu.Lock()
+	defer st.mu.Unlock()
+	n := 0
+	for f := range st.files {
+		if f.proc == proc {
+			n++
+		}
+	}
+	return n
+}
 
 // DefaultClass classifies cache and lock files by role.
 func DefaultClass(p string) string {
@@ -545,7 +576,10 @@ func OpenFile(name string, flag int, perm fs.FileMode) (*File, error) {
 		d.after(proc)
 		return nil, err
 	}
-	f := &File{f: rf, name: name, proc: proc, flag: flag, fd: int(rf.Fd())}
+	f := &File{f: rf, name: name, proc: proc, flag: flag, fd: int(rf.Fd()), task: -1}
+	if _, t := simrt.Current(); t != nil {
+		f.task = t.ID
+	}
 	st.mu.Lock()
 	st.files[f] = true
 	st.byFd[f.fd] = f
@@ -619,11 +653,13 @@ type File struct {
 	fd     int
 	closed bool
 	lock   int // ground truth: 0, syscall.LOCK_SH or syscall.LOCK_EX
+	task   int // task that opened it (-1: outside the simulation)
 }
 
 func (f *File) Name() string { return f.name }
 func (f *File) Fd() uintptr  { return uintptr(f.fd) }
 func (f *File) Proc() int    { return f.proc }
+func (f *File) Flag() int    { return f.flag }
 
 // LockMode reports the advisory lock this descriptor holds (0 if none).
 func (f *File) LockMode() int { return f.lock }
@@ -698,6 +734,9 @@ func (f *File) Read(b []byte) (int, error) {
 	if err != nil {
 		return 0, err
 	}
+	if cb := st.onFileOp; cb != nil {
+		cb(f, "read")
+	}
 	if d.fail != nil && d.short < 0 {
 		return 0, d.fail
 	}
@@ -750,6 +789,9 @@ func (f *File) write(op string, b []byte, off int64, at bool) (int, error) {
 		return 0, err
 	}
 	noteBytes(len(b))
+	if cb := st.onFileOp; cb != nil {
+		cb(f, op)
+	}
 	if d.fail != nil && d.short < 0 {
 		return 0, d.fail
 	}
@@ -822,6 +864,9 @@ func (f *File) Truncate(size int64) error {
 	d, err := Enter("truncate", f.name)
 	if err != nil {
 		return err
+	}
+	if cb := st.onFileOp; cb != nil {
+		cb(f, "truncate")
 	}
 	if d.fail != nil {
 		return d.fail
